@@ -73,6 +73,29 @@ CLAIMED = {
         "after those two entry points are explored only where the trigger does not apply.",
         "DESIGN.md §4 C05, §9",
     ),
+    "C06": (
+        "Naming.tla (Mint enabled iff the name is new or bound to the same descriptor; cache soundness model-checked); process "
+        "histories of TLC-enumerated programs replayed, every re-observed node name / graph key validated by TLC (Naming.MintVerdict)",
+        "Per worker process one history of consecutive enumerated behaviours (neighbours differ minimally: same source under every "
+        "chunk grid, same operation with other parameters, random arrays with equal seeds and different layouts, rechunk specs, "
+        "persisted graphs, sliding-window reductions).  For every collection every expression node of the raw / simplified / lowered "
+        "/ fused trees (shape, chunks, dtype) and every key of the raw and of the pinned graph (block shape, dtype, value "
+        "fingerprint) is registered; a name or key seen before in the process is emitted together with its earlier descriptor and "
+        "TLC rejects any difference.",
+        "Names that differ for equal arrays are not judged. Histories are per worker process (16), not across workers.",
+        "DESIGN.md §4 C06, §9",
+    ),
+    "C07": (
+        "Naming.tla identity relation; TLC-enumerated programs built here, built again, cloudpickled, and rebuilt / unpickled in "
+        "fresh interpreters with another hash seed; identity records validated by TLC (Naming.IdentityVerdict)",
+        "A deterministic stride of the corpora (NumPy sources, seeded random arrays of both generator kinds, rechunk specs, "
+        "reductions, two-operation programs): per program five identity records - built, built again in the same process, pickle "
+        "round trip in the same process, built in a fresh interpreter started with PYTHONHASHSEED=4242, unpickled in that "
+        "interpreter - each with the collection name, `__dask_keys__()`, the optimized graph's key set, "
+        "`__frisky_output_keys__()`, chunks, dtype and a fingerprint of the computed values; TLC requires all to equal the first.",
+        "Untokenizable sources are not generated; einsum is not modelled.",
+        "DESIGN.md §4 C07, §9",
+    ),
     "C08": (
         "TLC-enumerated ArrayProgram behaviours replayed; pass-by-pass optimization traces recorded and validated by TLC against "
         "the pass machine of Optimizer.tla (OptimizeVerdict); Optimizer.tla model-checked for termination",
@@ -83,6 +106,21 @@ CLAIMED = {
         "Known finding F10 (a second optimize() simplifies slice nodes created by lowering next to pad/roll concatenates) is reported "
         "as KNOWN-FINDING. Fixed: reshape_rechunk IndexError (fix: commit c10f59b).",
         "DESIGN.md §4 C08, §9",
+    ),
+    "C09": (
+        "Naming.tla cache soundness (model-checked); long process histories of TLC-enumerated programs with earlier collections kept "
+        "alive, built under one planner configuration and computed under another; values validated by TLC (Collection.HistoryVerdict), "
+        "suspects re-validated against a fresh interpreter",
+        "16 process histories over the sorted corpora (every reduction x split_every over 1-D sources of up to 7 blocks under all "
+        "chunk grids, all depth-1 programs, rechunk specs, two-operation programs): the collections of the last 200 programs stay "
+        "alive (singleton registry, lowering cache); each program is built under configuration A, computed through the kept object "
+        "under B and again under A (A, B round-robin over the 384-element product of optimize-graph, rechunk threshold / "
+        "degree-limit / method, chunk-size, unify policy / limit, split_every), and an earlier collection of the process is computed "
+        "again later.  TLC compares all observations of a collection with each other; observations that agree with each other but "
+        "not with the denotation are replayed alone in a fresh interpreter and TLC compares the in-history value with the fresh one.",
+        "Known finding F26 (lowering cache serves the unification of another policy for a tensordot of two views of one source) is "
+        "reported as KNOWN-FINDING from its witness history. Configurations are assigned round-robin, not as a full product per program.",
+        "DESIGN.md §4 C09, §9",
     ),
     "C10": (
         "TaskGraph.tla model-checked over all schedules of small graphs (pure: one terminal store; in-place mutant: violated); recorded "
@@ -193,6 +231,20 @@ CLAIMED = {
         "False alarm corrected: a 'no key defined by two records' clause was removed (a pinned alias and the raw task of the same name "
         "legitimately coexist in a shared walk; equal names / equal arrays is C06's subject). vindex / diagonal are not generated yet.",
         "DESIGN.md §4 C21, §9",
+    ),
+    "C23": (
+        "RandomRealization.tla model-checked (Reinstantiate must not draw again; the redraw mutant violates OneRealization); "
+        "TLC-enumerated and TLC-simulated programs over seeded random bases replayed; observations validated by TLC "
+        "(RandomRealization.RealizationVerdict)",
+        "Exhaustive within bounds: random bases (RandomState and Generator; randint, poisson, normal, uniform, random; 1-D and 2-D; "
+        "lean chunk grids; two seeds) alone, followed by every lean operation, and by two operations (strided); plus two fixed-seed "
+        "TLC simulations of deep programs (6-7 actions, several sources / random bases sharing intermediates through elementwise "
+        "operations and reductions).  The first computed value of the base is the realization; TLC requires the derived collection "
+        "(optimized graph, raw graph, compute), the base computed again, a fresh collection over it, the base rebuilt from the same "
+        "seed / shape / chunks, and cloudpickle round trips all to equal it (derived: NumPy applied to the realized base).",
+        "Values are compared after fixed-point quantization (1e-6). Array-valued distribution parameters and choice() are not "
+        "generated (known defects there are listed in DESIGN.md §6 / §9.4).",
+        "DESIGN.md §4 C23, §9",
     ),
     "C24": (
         "SourceIO.tla (Read enabled iff the request is a basic index inside the source); TLC-enumerated slice / rechunk chains replayed "
